@@ -136,7 +136,7 @@ class BlockComment(Lexer):
 
     tokens = {BLOCK_COMMENT_END}
 
-    @_(r".*\*/")
+    @_(r".*?\*/")
     def BLOCK_COMMENT_END(self, t):
         self.pop_state()
 
